@@ -7,6 +7,7 @@ import (
 	"context"
 	"fmt"
 	"math/big"
+	"net/http"
 	"net/http/httptest"
 	"slices"
 	"sort"
@@ -243,16 +244,29 @@ var (
 )
 
 type kshard struct {
-	id       string
-	parents  []string
-	closed   bool // split or merged away: its readers will reach the end
-	finished bool // a reader reported it finished
-	assigned int  // times handed out since the last restore
+	id           string
+	parents      []string
+	closed       bool // split or merged away: its readers will reach the end
+	finished     bool // a reader reported it finished
+	assigned     int  // times handed out since the last restore
 	everAssigned bool
 }
 
 func execKS(p ksProg, c *hx.Case) (err error) {
-	fakeOnce.Do(func() { fakeServer, _ = kinesisfake.StartFake() })
+	fakeOnce.Do(func() {
+		fakeServer, _ = kinesisfake.StartFake()
+		// The repository's fake keeps its streams in plain maps and serves every
+		// request on its own goroutine: a ListShards of the splitter's discovery loop
+		// beside a split or merge issued by this harness is a fatal "concurrent map
+		// read and map write" inside the fake. Requests are served one at a time.
+		inner := fakeServer.Config.Handler
+		var fakeMu sync.Mutex
+		fakeServer.Config.Handler = http.HandlerFunc(func(w http.ResponseWriter, r *http.Request) {
+			fakeMu.Lock()
+			defer fakeMu.Unlock()
+			inner.ServeHTTP(w, r)
+		})
+	})
 	client := kinesis.NewLocalClient(fakeServer.URL)
 	ctx := context.Background()
 	streamSeq++
